@@ -219,9 +219,24 @@ static char *quote_string(char *str) {
   return buf;
 }
 
+// Tokenize text synthesized during macro expansion (stringizing,
+// pasting, __LINE__, ...). The new tokens take over the source position
+// of `tmpl`; their own buffer has no meaningful line numbers.
+static Token *tokenize_synthesized(char *buf, Token *tmpl) {
+  File *file = new_file(tmpl->file->name, tmpl->file->file_no, buf);
+  file->display_name = tmpl->file->display_name;
+  file->line_delta = tmpl->file->line_delta;
+  file->include_depth = tmpl->file->include_depth;
+
+  Token *tok = tokenize(file);
+  for (Token *t = tok; t; t = t->next)
+    t->line_no = tmpl->line_no;
+  return tok;
+}
+
 static Token *new_str_token(char *str, Token *tmpl) {
   char *buf = quote_string(str);
-  return tokenize(new_file(tmpl->file->name, tmpl->file->file_no, buf));
+  return tokenize_synthesized(buf, tmpl);
 }
 
 // Copy all tokens until the next newline, terminate them with
@@ -241,7 +256,7 @@ static Token *copy_line(Token **rest, Token *tok) {
 
 static Token *new_num_token(int val, Token *tmpl) {
   char *buf = format("%d\n", val);
-  return tokenize(new_file(tmpl->file->name, tmpl->file->file_no, buf));
+  return tokenize_synthesized(buf, tmpl);
 }
 
 static Token *read_const_expr(Token **rest, Token *tok) {
@@ -508,7 +523,7 @@ static Token *paste(Token *lhs, Token *rhs) {
   char *buf = format("%.*s%.*s", lhs->len, lhs->loc, rhs->len, rhs->loc);
 
   // Tokenize the resulting string.
-  Token *tok = tokenize(new_file(lhs->file->name, lhs->file->file_no, buf));
+  Token *tok = tokenize_synthesized(buf, lhs);
   if (tok->next->kind != TK_EOF)
     error_tok(lhs, "pasting forms '%s', an invalid token", buf);
   return tok;
